@@ -3,8 +3,8 @@ C03 — Traffic is intercepted exactly when its most specific subnet entry is an
 
 Property theorems only; helper lemmas are in `Lemmas/FwRules.lean` (sort key, first/last
 match over sorted lists, key order = spec precedence), `Lemmas/FwRulesWalk.lean`,
-`Lemmas/FwRulesNat.lean`, `Lemmas/FwRulesNft.lean`, `Lemmas/FwRulesTproxy.lean`,
-`Lemmas/FwRulesPf.lean`.
+`Lemmas/FwRulesNat.lean`, `Lemmas/FwRulesNft.lean`, `Lemmas/FwRulesTproxy.lean` (chain walks with
+non-terminating MARK, command loading, `Mask32Safe`), `Lemmas/FwRulesPf.lean`.
 
 Reading guide.  `Call` = the arguments of one `setup_firewall` call (one family, as
 `firewall.main` makes it); `natCmds c` etc. = the commands the method issues; `load` = the
@@ -145,14 +145,48 @@ theorem C03_owner_ignored_by_nft_tproxy_pf (c : Call) (u g : Option String) :
 
 /-! ## 4. pf -/
 
-/-- **C03 for pf (FreeBSD/Darwin and OpenBSD rule sets), filter step — partial.**  For a TCP
-packet of the call's family, the last matching `pass out` rule of the anchor (pf evaluates
-filter rules last-match) is a `route-to lo0` rule iff the most specific matching entry is an
-include.  Missing from the full statement (checked on every run by the correspondence run and
-the per-cell oracle only): that the packet then hits an `rdr` / `divert-to` rule for the proxy
-port on `lo0`, the DNS rules, and the other-family case.  The pf evaluation model is taken
-from the manual pages and is not validated (no pf in the sandbox). -/
-theorem C03_pf_filter_partial (os : PfOs) (c : Call) (p : Pkt)
+/-- **C03 for the pf method**, per anchor (one `setup_firewall` call), for the FreeBSD/Darwin
+rule set (`rdr pass on lo0 …` first match + `pass out route-to lo0 …` last match) and the OpenBSD
+rule set (`pass in on lo0 … divert-to/rdr-to` + `pass out … route-to lo0`, all last match).
+For every call of a supported family whose entries are well-formed and of that family and whose
+name servers are of that family (what `firewall.main` passes), and every packet whose source is
+not the loopback address: a packet of the call's family is handed to the DNS listener iff it is
+UDP/53 to a listed name server, to the proxy iff it is TCP and its most specific matching entry
+is an include (the LAST matching `pass out` rule of the ascending sort is a `route-to` rule,
+and on `lo0` a translation rule for the proxy port then matches), and left alone otherwise; a
+packet of the other family is left alone (`inet` / `inet6`).  pf has no owner restriction and
+forwards no UDP.  The pf evaluation model is taken from the manual pages (not validated: no pf
+in the sandbox). -/
+theorem C03_pf (os : PfOs) (c : Call) (p : Pkt)
+    (hfam : c.family = AF_INET ∨ c.family = AF_INET6)
+    (hwf : ∀ s ∈ c.subnets, Spec.WfEntry s ∧ s.fam = c.family)
+    (hns : ∀ ns ∈ c.nslist, ns.fam = c.family) (hsrc : p.srcLo = false) :
+    verdictPfAnchor os (pfCallRules os c) p =
+      if p.fam6 = isV6 c.family then Spec.expectedCall c false false p else .untouched :=
+  pf_anchor_verdict os c p hfam hwf hns hsrc
+
+/-- Hypotheses of `C03_pf` hold for a call where a narrow-port exclude on a short prefix beats a
+port-less include on a long prefix; one packet is diverted, its neighbour port is not. -/
+example :
+    let c : Call := { port := 12300, dnsport := 12299, nslist := [⟨2, "10.0.0.53", 167772213⟩],
+                      family := 2,
+                      subnets := [⟨2, 8, true, "10.0.0.0", 167772160, 443, 443⟩,
+                                  ⟨2, 32, false, "10.1.2.3", 167838211, 0, 0⟩],
+                      udp := false, user := none, group := none, tmark := "0x01" }
+    (c.family = AF_INET ∨ c.family = AF_INET6) ∧
+    (∀ s ∈ c.subnets, Spec.WfEntry s ∧ s.fam = c.family) ∧ (∀ ns ∈ c.nslist, ns.fam = c.family) ∧
+    Spec.expectedCall c false false
+      { fam6 := false, dst := 167838211, dport := 444, proto := .tcp, loc := true, dstLocal := false }
+      = .divert 12300 ∧
+    Spec.expectedCall c false false
+      { fam6 := false, dst := 167838211, dport := 443, proto := .tcp, loc := true, dstLocal := false }
+      = .untouched := by
+  decide
+
+/-- The filter step of `C03_pf` on its own: for a TCP packet of the call's family the last
+matching `pass out` rule of the anchor is a `route-to lo0` rule iff the most specific matching
+entry is an include. -/
+theorem C03_pf_last_match_filter (os : PfOs) (c : Call) (p : Pkt)
     (hfam : c.family = AF_INET ∨ c.family = AF_INET6)
     (hwf : ∀ s ∈ c.subnets, Spec.WfEntry s ∧ s.fam = c.family)
     (hp : p.fam6 = isV6 c.family) (hpr : p.proto = .tcp) :
@@ -202,15 +236,89 @@ theorem C03_tproxy_dns_mask32_v6_false :
   revert this
   decide
 
-/-- tproxy's subnet rules match exactly the packets (of the rule's protocol) their entry
-matches; together with `C03_first_match_sorted_desc` this is the ordering argument for both
-the mark chain and the tproxy chain.  (The full chain walk for tproxy — non-terminating MARK,
-`-m socket`, UDP interleaving, `C03_tproxy_chains_agree` — is not proved; it is covered by the
-correspondence run and the per-cell oracle.) -/
-theorem C03_tproxy_subnet_rule_partial (v6 : Bool) (pr : Proto) (s : Subnet) (p : Pkt)
-    (mark : Option String)
-    (hfam : s.fam = (if v6 then AF_INET6 else AF_INET)) (hp : p.fam6 = v6) :
-    matchRule (tproxySubnetMatch v6 pr s) p mark = (pr == p.proto && Spec.entryMatches s p) :=
-  tproxySubnet_match v6 pr s p mark hfam hp
+/-- **C03 for the tproxy method — partial only in the one class of the known finding.**
+For every `setup_firewall` call of a supported family whose entries are well-formed and of that
+family, with or without UDP forwarding, and every packet of that family that has a non-local
+destination, belongs to no existing local socket (a new flow: `-m socket` is false) and does not
+already carry sshuttle's mark: the whole pipeline — mangle OUTPUT → `sshuttle-m-PORT` (MARK is
+non-terminating) → policy routing on the mark → mangle PREROUTING → `sshuttle-t-PORT` (with the
+`-m socket` → `sshuttle-d-PORT` rules and the interleaved tcp/udp rules) for a locally generated
+packet, mangle PREROUTING alone for a forwarded one — hands the packet to the DNS listener iff it
+is UDP/53 to a listed name server, to the proxy iff it is TCP (or UDP when UDP is forwarded) and
+its most specific matching entry is an include, and leaves it alone otherwise.
+The excluded case is the hypothesis `Mask32Safe c p`: for an IPv6 call, a UDP/53 packet inside
+the /32 of a listed name server must be that name server (known finding
+`C03:tproxy:ipv6-ns-mask32:dns-divert-of-non-nameserver`; without it the statement is false,
+`C03_tproxy_dns_mask32_v6_false`). -/
+theorem C03_tproxy_partial (c : Call) (p : Pkt)
+    (hfam : c.family = AF_INET ∨ c.family = AF_INET6) (hp : p.fam6 = isV6 c.family)
+    (hwf : ∀ s ∈ c.subnets, Spec.WfEntry s ∧ s.fam = c.family)
+    (hnl : p.dstLocal = false) (hsock : p.hasSocket = false)
+    (hmark : p.mark ≠ some c.tmark) (hs : Mask32Safe c p) :
+    verdictTproxy (load (tproxyCmds c)) p = Spec.expectedCall c false c.udp p :=
+  tproxy_verdict c p hfam hp hwf hnl hsock hmark hs
+
+/-- **C03 for tproxy, IPv4: the full statement** (no exclusion). -/
+theorem C03_tproxy_v4 (c : Call) (p : Pkt)
+    (hfam : c.family = AF_INET) (hp : p.fam6 = false)
+    (hwf : ∀ s ∈ c.subnets, Spec.WfEntry s ∧ s.fam = c.family)
+    (hnl : p.dstLocal = false) (hsock : p.hasSocket = false) (hmark : p.mark ≠ some c.tmark) :
+    verdictTproxy (load (tproxyCmds c)) p = Spec.expectedCall c false c.udp p := by
+  have hv : isV6 c.family = false := by rw [hfam]; decide
+  exact tproxy_verdict c p (Or.inl hfam) (by rw [hp, hv]) hwf hnl hsock hmark (mask32Safe_v4 c p hv)
+
+/-- Hypotheses of `C03_tproxy_partial` hold for a UDP-forwarding IPv6 call with a ranged include,
+a single-port exclude inside it and a name server; the verdicts are not all `untouched`. -/
+example :
+    let c : Call := { port := 12300, dnsport := 12299,
+                      nslist := [⟨10, "2404:6800:4004:80c::33", 47875086426101804840912601426304172083⟩],
+                      family := 10,
+                      subnets := [⟨10, 64, false, "2404:6800:4004:80c::", 47875086426101804840912601426304172032, 8000, 9000⟩,
+                                  ⟨10, 128, true, "2404:6800:4004:80c::101f", 47875086426101804840912601426304176159, 8080, 8080⟩],
+                      udp := true, user := none, group := none, tmark := "0x01" }
+    let p : Pkt := { fam6 := true, dst := 47875086426101804840912601426304176159, dport := 8081,
+                     proto := .udp, loc := true, dstLocal := false }
+    (c.family = AF_INET ∨ c.family = AF_INET6) ∧ p.fam6 = isV6 c.family ∧
+    (∀ s ∈ c.subnets, Spec.WfEntry s ∧ s.fam = c.family) ∧ p.hasSocket = false ∧
+    p.mark ≠ some c.tmark ∧ Mask32Safe c p ∧
+    Spec.expectedCall c false c.udp p = .divert 12300 := by
+  refine ⟨by decide, by decide, by decide, by decide, by decide, ?_, by decide⟩
+  intro _ _ h; revert h; decide
+
+/-- tproxy, packets to one of the host's own addresses (`-m addrtype --dst-type LOCAL` in both
+chains, placed after the DNS rules): nothing but DNS to a listed name server is taken, whatever
+the subnet entries say — so a `0/0` include does not swallow connections to the machine itself
+(nor the packets TPROXY has already delivered locally). -/
+theorem C03_tproxy_local_destination (c : Call) (p : Pkt)
+    (hfam : c.family = AF_INET ∨ c.family = AF_INET6) (hp : p.fam6 = isV6 c.family)
+    (hl : p.dstLocal = true) (hmark : p.mark ≠ some c.tmark) (hs : Mask32Safe c p) :
+    verdictTproxy (load (tproxyCmds c)) p =
+      if Spec.isDnsToNs c.nslist p then .divert c.dnsport else .untouched :=
+  tproxy_verdict_local c p hfam hp hl hmark hs
+
+/-- `C03_tproxy_chains_agree`: under the hypotheses of `C03_tproxy_partial`, the OUTPUT-side
+chain `sshuttle-m-PORT` leaves a packet marked with `tmark` iff the PREROUTING-side chain
+`sshuttle-t-PORT` hands it to one of the listeners — so exactly the locally generated packets
+that must be intercepted are re-routed to `lo`, and each of them is then taken by TPROXY. -/
+theorem C03_tproxy_chains_agree (c : Call) (call call' : ChainName → Option String → Res)
+    (p : Pkt) (m0 mark : Option String)
+    (hfam : c.family = AF_INET ∨ c.family = AF_INET6) (hp : p.fam6 = isV6 c.family)
+    (hwf : ∀ s ∈ c.subnets, Spec.WfEntry s ∧ s.fam = c.family)
+    (hnl : p.dstLocal = false) (hsock : p.hasSocket = false)
+    (hm0 : m0 ≠ some c.tmark) (hs : Mask32Safe c p) :
+    (walkList call p (tproxyMarkChain c) m0 = .fall (some c.tmark)) ↔
+      ((walkList call' p (tproxyTproxyChain c) mark).verdict ≠ .untouched) := by
+  rw [tproxyMark_walk c call p m0 hfam hp hwf hnl hs,
+    tproxyChain_verdict c call' p mark hfam hp hwf hnl hsock hs, expectedCall_diverts]
+  cases tproxyDiverts c p with
+  | true => simp
+  | false =>
+    simp only [Bool.false_eq_true, if_false, iff_false]
+    intro h; exact hm0 (Res.fall.inj h)
+
+/-- `tproxySetup` issues exactly `tproxyCmds` for a supported family, and raises otherwise. -/
+theorem C03_tproxy_setup (c : Call) :
+    tproxySetup c = if c.family ≠ AF_INET ∧ c.family ≠ AF_INET6 then .exc "family"
+                    else .ok (tproxyCmds c) := rfl
 
 end Sshuttle.Fw
